@@ -17,7 +17,7 @@ rm -f examples/seed_demo.rs
 echo "== suite WITH patch"
 cargo nextest run --workspace --no-fail-fast --tool-config-file pb:/w/lib/nextest.toml --profile pb --test-threads 8 --offline > $D/suite-$N.log 2>&1
 grep -E 'Summary' $D/suite-$N.log
-FAILED=$(grep -E '^\s+(FAIL|TIMEOUT)' $D/suite-$N.log | awk '{print $NF}' | sort -u)
+FAILED=$(grep -E '^\s+(FAIL|TIMEOUT|SIGTERM|SIGKILL|SIGABRT|SIGSEGV|ABORT|LEAK-FAIL)' $D/suite-$N.log | awk '{print $NF}' | sort -u)
 echo "failed_in_full_run: $(echo $FAILED | wc -w)"
 STILL=0
 for t in $FAILED; do
